@@ -60,6 +60,8 @@ def cases(rng, tier):
         nsub = max(1, min(nsub, t // al))
         esis = CG.block_esis(rng, k, rng.choice([-1, 0, 0, 1, 2, 10, 11, 14]), rng.choice([0.1, 0.3, 0.6]))
         data = CG.rand_data(rng, k * t)
+        if not esis:
+            esis = [0]
         e1 = rng.shuffle(esis)
         e2 = rng.shuffle(esis + [rng.choice(esis)])
         thr = rng.choice([0, 1, 251])
@@ -105,7 +107,7 @@ def evaluate(cs, rep, tier):
             for fl in flags:
                 if fl == "1":
                     seen = True
-                elif seen and v.fn == "codec_hist":
+                elif seen:
                     counter.append({"input": v.impl_line()[:600], "expected": "once Some, always Some", "observed": " ".join(flags), "oracle": "stability"})
                     break
             if last == "1" and list(map(int, payload)) != data:
